@@ -274,8 +274,8 @@ theorem loadCertificates_order_irrelevant (blocks : Blocks) (o1 o2 : List Name) 
 
 -- non-vacuity: a material with a pair, two single files, a stray text file; three iteration orders, one list
 example :
-    let blocks : Blocks := [("z.pem".toList, ⟨some 1, some 1⟩), ("a-key.pem".toList, ⟨none, some 0⟩),
-      ("B.pem".toList, ⟨some 2, some 2⟩), ("a-cert.pem".toList, ⟨some 0, none⟩), ("notes.txt".toList, ⟨none, none⟩)]
+    let blocks : Blocks := [("z.pem".toList, ⟨some 1, some 1, 0⟩), ("a-key.pem".toList, ⟨none, some 0, 0⟩),
+      ("B.pem".toList, ⟨some 2, some 2, 0⟩), ("a-cert.pem".toList, ⟨some 0, none, 0⟩), ("notes.txt".toList, ⟨none, none, 0⟩)]
     let o := blocks.map (·.1)
     loadCertificates blocks o = some [("B.pem".toList, 2), ("a-cert.pem".toList, 0), ("z.pem".toList, 1)] ∧
     loadCertificates blocks o.reverse = loadCertificates blocks o ∧
@@ -289,7 +289,7 @@ example :
 
 -- a key that belongs to another certificate spoils the material whichever of the two names comes first
 example :
-    let blocks : Blocks := [("a-cert.pem".toList, ⟨some 0, none⟩), ("a-key.pem".toList, ⟨none, some 1⟩), ("z.pem".toList, ⟨some 1, some 1⟩)]
+    let blocks : Blocks := [("a-cert.pem".toList, ⟨some 0, none, 0⟩), ("a-key.pem".toList, ⟨none, some 1, 0⟩), ("z.pem".toList, ⟨some 1, some 1, 0⟩)]
     badName blocks "a-key.pem".toList = true ∧ badName blocks "a-cert.pem".toList = true ∧
     loadCertificates blocks ["z.pem".toList, "a-key.pem".toList, "a-cert.pem".toList] = none ∧
     loadCertificates blocks ["a-cert.pem".toList, "z.pem".toList, "a-key.pem".toList] = none := by decide
